@@ -22,7 +22,7 @@ CHECKS = {
                 "MonitorRequest/MonitorSelect, OperationResult/TransactResponse, errors through ResultFromError/"
                 "CheckOperationResults, DatabaseSchema from the full-type-space schema generator) in decoded canonical form; "
                 "oracle decode(encode(x)) == x (reflect.DeepEqual; schemas through every exported accessor plus stable "
-                "re-encoding); the RFC error strings are compared exactly in both directions (wire string -> Go error type -> wire string; a string differing only in case is not that error). Non-trivial = value with >=1 optional member present and >=1 nested set/map, or a schema "
+                "re-encoding); the RFC error strings are compared exactly in both directions (wire string -> Go error type -> wire string; a string differing only in case is not that error). Schemas include integer bounds beyond +-2^53 and string enums as map keys and values; a quarter of the round trips come right after a structurally corrupted encoding of the same value was decoded (accepted or rejected). Non-trivial = value with >=1 optional member present and >=1 nested set/map, or a schema "
                 "with >=1 base-type constraint; distinct = hash of the structural signature (type, members present, "
                 "shapes of nested values / column type signature).",
         "assumptions": COMMON_ASSUMPTIONS + [
@@ -82,7 +82,7 @@ CHECKS = {
                 "exact agreement with refdb (GC closure, pruning, accept/reject and error kind), Database.GetReferences for every "
                 "live, recently deleted and dangling uuid = references recomputed from the rows; TestC04Independence additionally "
                 "loads a fresh database with the current rows at a drawn step and runs the rest of the history on both. "
-                "One case in about eight runs in the Big mode (fan-in: 33-70 referrers of one row, later removed again). Non-trivial = history with a commit that garbage-collects >=1 row, prunes >=1 weak reference, or is rejected "
+                "One case in about eight runs in the Big mode (fan-in: 33-70 referrers of one row, later removed again). Chains of 3-9 non-root rows, each holding a strong reference to the next, hang from one row (with an optional weak watcher of several links): letting the head go takes one garbage-collection round per link. Non-trivial = history with a commit that garbage-collects >=1 row, prunes >=1 weak reference, or is rejected "
                 "for a reference reason; distinct = hash of (schema kinds, operation sequence).",
         "assumptions": COMMON_ASSUMPTIONS + [
             "refdb commit procedure: GC to fixpoint interleaved with weak pruning, then strong check, weak minimum, indexes",
@@ -220,7 +220,7 @@ CHECKS = {
                 "RowByModel/RowsByModels by uuid, by schema-index values and by client-index values return exactly what a scan returns; before that, "
                 "RowsByCondition with the values of every index of up to 4 rows - alone, and together with a _uuid condition naming the same or another row - must "
                 "select what a scan (refdb) selects, and must leave the indexes intact for the comparisons that follow; "
-                "values no row holds any more lead nowhere. Between batches one third of the cases issue a checked write the cache has to refuse (Create or Update that would give a second row the values of a schema index of a cached row, the other columns fresh): it must fail and leave Rows(), every index and every lookup as they were. Non-trivial = history with a batch in which an indexed value changes owner; "
+                "values no row holds any more lead nowhere. Between batches one third of the cases issue a checked write the cache has to refuse (Create or Update that would give a second row the values of a schema index of a cached row, the other columns fresh): it must fail and leave Rows(), every index and every lookup as they were. The optional indexed column takes every atomic type. Non-trivial = history with a batch in which an indexed value changes owner; "
                 "distinct = hash of (index configuration, per-batch path/size/hand-over).",
         "assumptions": COMMON_ASSUMPTIONS + [
             "single-column indexes on set/map columns are not generated (the cache uses the value as a Go map key)",
@@ -262,7 +262,7 @@ CHECKS = {
                 "Mapper.GetRowData into a model pre-filled with sentinels, and -> model.CreateModel: every mapped field must come back equal "
                 "(sets as sets); with the default NewRow and after dropping drawn columns the absent columns keep their sentinels; NativeToOvs/"
                 "SetField with any other Go type and OvsToNative with a wire value of another kind (per column kind: ~10 wrong shapes) must "
-                "return an error; CreateModel from a sparse or empty row still yields a model carrying the uuid; a model struct whose field for a drawn column has another Go type - including types the native value is assignable or convertible to (interface{}, a defined type over the same underlying type) - must be refused by the schema-driven type check. Non-trivial = >=1 collection/optional column with a non-default value; distinct = hash of the table's type signature.",
+                "return an error; CreateModel from a sparse or empty row still yields a model carrying the uuid; a model struct whose field for a drawn column has another Go type - including types the native value is assignable or convertible to (interface{}, a defined type over the same underlying type) - must be refused by the schema-driven type check. Half of the sparse-row conversions come right after a row of the same table was rejected for one wrongly typed column. Non-trivial = >=1 collection/optional column with a non-default value; distinct = hash of the table's type signature.",
         "assumptions": COMMON_ASSUMPTIONS + [
             "integers are kept within +-2^53 (known finding int53); reals are finite; strings valid UTF-8",
             "a JSON number for an integer column is the designed decoding path (float64 -> int), not a type mismatch",
@@ -318,7 +318,7 @@ CHECKS = {
                 "RowsByCondition with and without conditions) is mutated too: every path must still return the stored value. Event-handler "
                 "arguments are covered by C14. TestC13API does the same through a connected client (server, MonitorAll): List into []T and []*T, "
                 "WhereCache/Where(models)/WhereAny(...).List into both, Get, Cache().Table().Row/Rows; 1-3 mutations of returned models, then every path "
-                "must return the rows the database holds; conditionals are reused for several reads (a later List on the same ConditionalAPI must not hand out memory an earlier one returned). TestC13Large: tables of 300, 1027, 2051 and 4100 rows read in full through Rows, RowsByCondition and row by row, every returned model scribbled over: the cache must still hold what was stored. Non-trivial = a mutation through a non-empty slice, map or "
+                "must return the rows the database holds; conditionals are reused for several reads (a later List on the same ConditionalAPI must not hand out memory an earlier one returned). The row RowCache.Update hands back (for an update that changes nothing) is one of the read paths; the hand-written model has its untagged field in the middle. TestC13Large: tables of 300, 1027, 2051 and 4100 rows read in full through Rows, RowsByCondition and row by row, every returned model scribbled over: the cache must still hold what was stored. Non-trivial = a mutation through a non-empty slice, map or "
                 "pointer; distinct = hash of (family, read path, write path, mutation kind).",
         "assumptions": COMMON_ASSUMPTIONS + [
             "RowsShallow is the documented read-only exception",
@@ -392,7 +392,7 @@ CHECKS = {
                 "selected rows with the right kind, no unselected column, and state-before + message (applied with the harness' own update / "
                 "update2 rules) = state-after on the monitored columns; old values must be the previous values. Failed transactions must "
                 "produce no message at all. A peer may answer a drawn notification with a JSON-RPC error (it stays connected and monitoring: what it is told afterwards must not depend on that). One case in about eight runs in the Big mode (sets of up to 120 elements growing and shrinking). TestC07L1: the same pre + update = post law on database.Update for thousands of L1 histories "
-                "(GC, pruning, merges). TestC07Order (one notification per commit, in commit order, under concurrency): 2-4 connections each commit 1-4 "
+                "(GC, pruning, merges). A third of TestC07L1 uses the reference-heavy profile (multi-round collections, rows pruned more than once). TestC07Order (one notification per commit, in commit order, under concurrency): 2-4 connections each commit 1-4 "
                 "increments of one counter at the same time while 2-3 monitoring peers (any method) acknowledge their notifications with drawn delays "
                 "(0-8 ms): every monitor must be told exactly the values 1..N in this order. Non-trivial = transaction with >=2 net row changes (wire) / GC, pruning or multi-operation "
                 "transactions (L1); distinct = hash of (schema kinds, peer requests, history length).",
@@ -472,7 +472,7 @@ CHECKS = {
                 "transactions in order pi on refdb reproduces every count/uuid each client received and the final Database.List; every failed "
                 "transaction fails at some position of pi compatible with its client's order; closed forms: counters = sum of committed "
                 "deltas, each contested key has exactly one winner; the caching client's cache equals the database at the end; no race report "
-                "involving libovsdb code. Programs also detach a child from a parent (a child no parent holds is garbage collected), alone or together with a claim of a contested key - when the claim fails nothing of the detachment may remain; some children belong to both parents from the start. TestC17Tokens: 2-5 clients race to take 1-4 tokens with transactions that only delete (optionally after a select or a wait, so they look read-only at first) while monitoring peers acknowledge slowly: each token is taken by exactly one transaction, nobody gets an RPC error, every monitor is told of each deletion once. TestC17MonitorWindow pins, with the server-side verif hook, a monitor set-up between 'monitors "
+                "involving libovsdb code. Programs also detach a child from a parent (a child no parent holds is garbage collected), alone or together with a claim of a contested key - when the claim fails nothing of the detachment may remain; some children belong to both parents from the start. In two thirds of the runs a bystander monitors a few columns of every table only. TestC17Tokens: 2-5 clients race to take 1-4 tokens with transactions that only delete (optionally after a select or a wait, so they look read-only at first) while monitoring peers acknowledge slowly: each token is taken by exactly one transaction, nobody gets an RPC error, every monitor is told of each deletion once. TestC17MonitorWindow pins, with the server-side verif hook, a monitor set-up between 'monitors "
                 "notified' and 'committed'. Non-trivial = run in which transactions of different clients overlapped in time at least "
                 "twice (measured by invocation/response timestamps); distinct = the observed order pi.",
         "assumptions": COMMON_ASSUMPTIONS + [
@@ -506,7 +506,7 @@ CHECKS = {
                 "Echo, Disconnect, Connect, Close) on one client, with and without reconnect, while a writer commits transactions that keep "
                 "two columns of every row equal and a chaos goroutine cuts the connection 0-3 times through the proxy: no call may exceed "
                 "the bound (a hang is reported with the blocked goroutines' stacks), no reader may obtain a row whose two columns differ, "
-                "the epilogue must succeed, no race report involving libovsdb code. The client of TestC18Concurrent runs without reconnect, with reconnect, or with the inactivity probe (40/120/1000 ms). TestC18Leader: a leader-only client of two servers exporting _Server receives 1-5 drawn updates of the Database rows of the servers (leadership given up or taken, server id replaced or removed, model standalone/clustered, disconnected) in any order; after each one Connected, Echo, Transact, Get and CurrentEndpoint must return within the bound, and once server 0 reports leadership again the client must connect and echo within 20 s. Non-trivial = every enumerated combination; concurrent "
+                "the epilogue must succeed, no race report involving libovsdb code. The client of TestC18Concurrent runs without reconnect, with reconnect, or with the inactivity probe (40/120/1000 ms). TestC18Leader: a leader-only client of two servers exporting _Server receives 1-5 drawn updates of the Database rows of the servers (leadership given up or taken, server id replaced or removed, model standalone/clustered, disconnected) in any order; after each one Connected, Echo, Transact, Get and CurrentEndpoint must return within the bound, and once server 0 reports leadership again the client must connect and echo within 20 s. TestC18Large: the history of TestC16Large (67200 rows, two cuts) under the hang watchdog, without the race detector. Non-trivial = every enumerated combination; concurrent "
                 "runs with >=2 calls overlapping a notification or with >=1 cut; distinct = (combination) / (programs, cuts, reconnect).",
         "assumptions": COMMON_ASSUMPTIONS + [
             "liveness verdicts use a 20 s bound for calls whose contexts expire after 1.5-2 s, and the report carries the stacks of the goroutines parked in libovsdb/client",
@@ -533,7 +533,7 @@ CHECKS = {
                 "library generator formats every table and the db model four times (byte-identical), output parses, TYPE-CHECKS with go/types against "
                 "the real model and ovsdb packages (source importer), and for every column the tagged struct field has, after resolving aliases, "
                 "exactly the type string of ovsdb.NativeType(column); with extended generation and enum types independently on/off. "
-                "One template data object configured by a drawn history of option switches (enum types and extended generation switched back and forth, ending at the same settings) and rendered twice must give the files fresh data gives. TestC20Compiled (batches of 4-10 packages): the real cmd/modelgen binary built from /repo generates each package twice into two "
+                "One template data object configured by a drawn history of option switches (enum types and extended generation switched back and forth, ending at the same settings) and rendered twice must give the files fresh data gives. String enums also occur as map keys and map values. TestC20Compiled (batches of 4-10 packages): the real cmd/modelgen binary built from /repo generates each package twice into two "
                 "directories (byte-identical), with -extended on/off; the scratch module is vetted, compiled and tested: model.NewDatabaseModel("
                 "Schema(), FullDatabaseModel()) must validate, and for 40 reflectively filled values per table the generated CloneModel / "
                 "CloneModelInto / EqualsModel must agree with the generic laws (clone equal, no shared slice/map/pointer, Equal == field-wise "
